@@ -102,6 +102,11 @@ def routes(rec, rng):
     if rec["link"] is not None:
         kw["link"] = rec["link"]
     out.append(("kwargs_color_objects", Style(**kw)))
+    if rec["link"] is None:
+        # "no link" spelled as an empty string by the caller (a template value, an unset config entry)
+        out.append(("kwargs_empty_link", Style(link="", **kw)))
+        if not G.is_null(nolink):
+            out.append(("update_link_empty", G.build(nolink).update_link("")))
     out.append(("parse_str", Style.parse(str(base))))
     return out
 
@@ -145,6 +150,8 @@ def wl_algebra(ctx, rng, case_no):
 
     def mk(rec):
         if build == "kwargs" or (build == "mixed" and rng.random() < 0.5):
+            if rec["link"] is None and rng.random() < 0.1:
+                return G.build(rec) + Style(link="") if rng.random() < 0.5 else Style(link="") + G.build(rec)
             return G.build(rec)
         return Style.parse(G.definition(rec, rng))
     a, b, c = (mk(r) for r in recs)
